@@ -7,7 +7,6 @@ use std::sync::Mutex;
 pub static STOP: AtomicBool = AtomicBool::new(false);
 static NVIOL: AtomicUsize = AtomicUsize::new(0);
 pub static VIOLATIONS: Mutex<Vec<Violation>> = Mutex::new(Vec::new());
-pub const MAX_VIOLATIONS: usize = 6;
 
 #[derive(Clone, Debug)]
 pub struct Violation {
@@ -50,13 +49,52 @@ impl Violation {
     }
 }
 
-pub fn report(v: Violation) {
-    let n = NVIOL.fetch_add(1, Ordering::SeqCst);
-    if n + 1 >= MAX_VIOLATIONS {
-        STOP.store(true, Ordering::SeqCst);
+/// Class of a violation: property, what failed, and (for panics) the normalised panic message.  Used to keep a few
+/// witnesses of *each* kind of failure rather than many of the first kind, and to match known findings.
+pub fn signature(v: &Violation) -> String {
+    let mut obs = String::new();
+    if v.what.contains("panic") {
+        // normalise digits so that "byte index 2" and "byte index 3" are one class, but keep file:line
+        let (msg, loc) = match v.observed.rfind(" at ") {
+            Some(i) => (&v.observed[..i], &v.observed[i..]),
+            None => (v.observed.as_str(), ""),
+        };
+        let mut last_digit = false;
+        for ch in msg.chars() {
+            if ch.is_ascii_digit() {
+                if !last_digit {
+                    obs.push('N');
+                }
+                last_digit = true;
+            } else {
+                obs.push(ch);
+                last_digit = false;
+            }
+        }
+        let loc = loc.rsplit('/').next().unwrap_or("");
+        obs.push_str(" @");
+        obs.push_str(loc);
     }
-    if n < MAX_VIOLATIONS * 4 {
-        VIOLATIONS.lock().unwrap().push(v);
+    format!("{}|{}|{}", v.property, v.what, obs)
+}
+
+pub const MAX_PER_CLASS: usize = 2;
+pub const MAX_CLASSES: usize = 12;
+
+pub fn report(v: Violation) {
+    NVIOL.fetch_add(1, Ordering::SeqCst);
+    let sig = signature(&v);
+    let mut all = VIOLATIONS.lock().unwrap();
+    let same = all.iter().filter(|x| signature(x) == sig).count();
+    if same < MAX_PER_CLASS {
+        all.push(v);
+    }
+    let mut classes: Vec<String> = all.iter().map(signature).collect();
+    classes.sort();
+    classes.dedup();
+    // stop exploring once a class has its witnesses and the run has produced plenty of violations
+    if classes.len() >= MAX_CLASSES || NVIOL.load(Ordering::SeqCst) >= 2000 {
+        STOP.store(true, Ordering::SeqCst);
     }
 }
 
@@ -146,7 +184,49 @@ pub struct Evidence {
     pub known_findings: Vec<String>,
 }
 
+pub struct KnownFinding {
+    pub property: String,
+    pub status: String,
+    pub signature_contains: String,
+    pub description: String,
+}
+
+pub fn load_known_findings() -> Vec<KnownFinding> {
+    let path = crate::verif_dir().join("known_findings.json");
+    let text = match std::fs::read_to_string(&path) {
+        Ok(t) => t,
+        Err(_) => return vec![],
+    };
+    let v: Value = match serde_json::from_str(&text) {
+        Ok(v) => v,
+        Err(e) => {
+            eprintln!("mc: known_findings.json unreadable: {}", e);
+            std::process::exit(2);
+        }
+    };
+    let mut out = vec![];
+    if let Some(a) = v.get("findings").and_then(|x| x.as_array()) {
+        for f in a {
+            let g = |k: &str| f.get(k).and_then(|x| x.as_str()).unwrap_or("").to_string();
+            out.push(KnownFinding { property: g("property"), status: g("status"), signature_contains: g("signature_contains"), description: g("description") });
+        }
+    }
+    out
+}
+
 impl Evidence {
+    pub fn shallow(&self) -> Evidence {
+        Evidence {
+            property: self.property.clone(),
+            tier: self.tier.clone(),
+            families: self.families.clone(),
+            nontrivial_rule: self.nontrivial_rule.clone(),
+            nontrivial_keys: self.nontrivial_keys.clone(),
+            assumptions: self.assumptions.clone(),
+            extra: self.extra.clone(),
+            known_findings: self.known_findings.clone(),
+        }
+    }
     pub fn new(property: &str, tier: &str) -> Self {
         Evidence {
             property: property.to_string(),
@@ -233,14 +313,34 @@ pub fn finish(ev: &Evidence, wall_s: f64) -> i32 {
     // stable: families in run order first
     let order: Vec<String> = ev.families.iter().map(|f| f.family.clone()).collect();
     viols.sort_by_key(|v| order.iter().position(|f| *f == v.family).unwrap_or(usize::MAX));
-    let n = violation_count();
-    ev.write(wall_s, n);
+    // known findings (committed file, never written at run time)
+    let known = load_known_findings();
+    let mut printed: Vec<String> = vec![];
+    let mut unknown: Vec<Violation> = vec![];
+    for v in viols.into_iter() {
+        let sig = signature(&v);
+        match known.iter().find(|k| k.status == "open" && k.property == v.property && sig.contains(&k.signature_contains)) {
+            Some(k) => {
+                let line = format!("KNOWN-FINDING: property={} {} (witness: {})", v.property, k.description, v.root.replace('\n', "\\n"));
+                if !printed.iter().any(|l| l.starts_with(&format!("KNOWN-FINDING: property={} {}", v.property, k.description))) {
+                    println!("{}", line);
+                    printed.push(line);
+                }
+            }
+            None => unknown.push(v),
+        }
+    }
+    let viols = unknown;
+    let n = viols.len();
+    let mut ev2 = Evidence { known_findings: printed, ..ev.shallow() };
+    ev2.extra.insert("violations_reported_by_explorers_including_known".into(), json!(violation_count()));
+    ev2.write(wall_s, n);
     if viols.is_empty() {
         return 0;
     }
     let dir = crate::verif_dir().join("violations");
     std::fs::create_dir_all(&dir).ok();
-    for (i, v) in viols.iter().take(MAX_VIOLATIONS).enumerate() {
+    for (i, v) in viols.iter().take(MAX_CLASSES * MAX_PER_CLASS).enumerate() {
         let path = dir.join(format!("{}-{}.json", v.property, i));
         std::fs::write(&path, serde_json::to_string_pretty(&v.to_json()).unwrap()).expect("write violation");
         if i == 0 {
